@@ -85,6 +85,9 @@ Trust(m_) == m_.have /\ ~m_.dead /\ (IF Get(m_.sess, "strict", FALSE) THEN m_.tr
 
 \* byte offset in the body of item index i of s = CRLF \o body
 OffOf(m_, i) == BLen(SubSeq(m_.body, 1, i - 3))
+\* item index i of a part at nesting level lvl, expressed as an index of the outer s: the inner
+\* reference parse runs on CRLF \o (content of the enclosing part), whose first item is s[cs]
+AbsIdx(m_, lvl, i) == IF lvl = 1 THEN i ELSE m_.ref.parts[m_.ix].cs + i - 3
 RECURSIVE LineItems(_, _)
 LineItems(lines, k) == IF k = 0 THEN 0 ELSE Len(lines[k]) + 2 + LineItems(lines, k - 1)
 MaxLine(lines) == MaxOver({BLen(lines[k]) : k \in 1..Len(lines)})
@@ -95,11 +98,11 @@ OverF(p, mfs) == MaxLine(p.lines) > mfs
 OverH(p, mh) == Len(p.lines) > mh
 Within(p, mfs, mh) == MaxLine(p.lines) + 2 <= mfs /\ Len(p.lines) <= mh
 \* first byte offset of the input at which the violation of the limit is determined
-LimitAt(m_, p, mfs, mh) ==
+LimitAt(m_, lvl, p, mfs, mh) ==
     LET kF == First(1, Len(p.lines), LAMBDA k : BLen(p.lines[k]) > mfs)
     IN IF OverH(p, mh) /\ (~OverF(p, mfs) \/ kF > mh + 1)
-       THEN OffOf(m_, p.hs + LineItems(p.lines, mh + 1))
-       ELSE OffOf(m_, p.hs + LineItems(p.lines, kF - 1)) + mfs + 2
+       THEN OffOf(m_, AbsIdx(m_, lvl, p.hs + LineItems(p.lines, mh + 1)))
+       ELSE OffOf(m_, AbsIdx(m_, lvl, p.hs + LineItems(p.lines, kF - 1))) + mfs + 2
 
 (* A name / filename is delivered verbatim or in a percent-encoded form that decodes to the
    original.  Permitted alternatives: an empty filename may be reported as "no filename"; leading
@@ -164,11 +167,10 @@ Apply(m_, e, B, useLen) ==
                    overF == hasNext /\ OverF(p, mfs)
                    overH == hasNext /\ OverH(p, mh)
                    within == hasNext /\ Within(p, mfs, mh)
-                   limitAt == LimitAt(m_, p, mfs, mh)
+                   limitAt == LimitAt(m_, lvl, p, mfs, mh)
                    c == IF err THEN
-                            (IF (overF \/ overH) /\ lvl = 1 THEN
+                            (IF overF \/ overH THEN
                                  (IF e.fed > limitAt + SegSlack(m_) THEN "LimitLate" ELSE "")
-                             ELSE IF overF \/ overH THEN ""
                              ELSE IF hasNext /\ ~within THEN ""
                              ELSE IF e.err \in {"linetoolong", "toomany"} THEN "LimitSpurious"
                              ELSE "ReaderError")
@@ -217,8 +219,8 @@ Apply(m_, e, B, useLen) ==
                    c == IF p.multi THEN "HarnessProtocol"
                         ELSE IF over /\ ~big THEN "ClientMaxNotEnforced"
                         ELSE IF big /\ ~over THEN "ClientMaxSpurious"
-                        ELSE IF big /\ lvl = 1 /\ L > cms
-                                /\ e.fed > OffOf(m_, p.cs) + cms + SegSlack(m_) + 2 * Min(Get(m_.sess, "seg", 1), 8192)
+                        ELSE IF big /\ L > cms
+                                /\ e.fed > OffOf(m_, AbsIdx(m_, lvl, p.cs)) + cms + SegSlack(m_) + 2 * Min(Get(m_.sess, "seg", 1), 8192)
                              THEN "ClientMaxLate"
                         ELSE IF big THEN ""
                         ELSE IF seterr /\ Get(e, "chunkwise", FALSE) THEN "DecodeChunkwise" \o Get(e, "codec", "")
@@ -259,7 +261,7 @@ Apply(m_, e, B, useLen) ==
                    allWithin == \A k \in 1..Len(rp) : Within(rp[k], mfs, mh)
                    lim == e.err \in {"linetoolong", "toomany"}
                    c == IF kO > 0 /\ ~seterr THEN (IF OverF(rp[kO], mfs) THEN "FieldLimitNotEnforced" ELSE "HeadersLimitNotEnforced")
-                        ELSE IF kO > 0 /\ lim THEN (IF e.fed > LimitAt(m_, rp[kO], mfs, mh) + SegSlack(m_) THEN "LimitLate" ELSE "")
+                        ELSE IF kO > 0 /\ lim THEN (IF e.fed > LimitAt(m_, 1, rp[kO], mfs, mh) + SegSlack(m_) THEN "LimitLate" ELSE "")
                         ELSE IF lim /\ allWithin THEN "LimitSpurious"
                         ELSE IF lim THEN ""
                         ELSE IF over /\ ~big THEN "ClientMaxNotEnforced"
